@@ -8,7 +8,8 @@ from seqprop import audit, coverage
 LEVEL = "translation_validation"
 COQ_TARGETS = ("props/C01.vo",)
 THEOREMS = ['C01_write_point_read_partial', 'C01_gc_keeps_newest_partial', 'C01_point_read_agrees_with_scan_partial',
-            'C01_reads_agree', 'C01_reads_agree_example', 'C01_shadowing_refuted_without_recency']
+            'C01_reads_agree', 'C01_reads_agree_example', 'C01_shadowing_refuted_without_recency',
+            'C01_db_reads_agree', 'C01_db_reads_agree_example']
 
 
 def programs(seed, n, nops):
